@@ -619,12 +619,13 @@ def run_lib(ctx, rnd, stats):
                 if "BAD" in v:
                     rep.violation("library operation misbehaves without any injected failure: `%s`: %s" % (line[:200], v[:200]), {"input": line, "result": r[:2000]})
                 continue
-            if v == ref or v == "oom-unchanged":
-                continue                                  # completed with the unfailed result, or failed cleanly
+            status, _, retry = v.partition(";retry=")
+            if v == ref or (status == "oom-unchanged" and retry == ref):
+                continue                                  # completed with the unfailed result, or failed cleanly and the retry gives the unfailed result
             fid = None
-            if "reported-failure-but-message-changed" in v:
-                # F14.2 is exactly the 7 reserved padding bytes left behind; anything else a header edit leaves is new
-                fid = "F14.2" if (op == "set" and v.endswith("reparse=invalid:len+7")) else "F14.3" if op == "append" else None
+            if "reported-failure-but-message-changed" in status:
+                # F14.2 is exactly the 7 reserved padding bytes left behind (and the retry repairs it); anything else a header edit leaves is new
+                fid = "F14.2" if (op == "set" and status.endswith("reparse=invalid:len+7") and retry == ref) else "F14.3" if op == "append" else None
             if fid in known:
                 rep.known(known[fid], {"case": line[:200], "points": n, "verdict": v[:120]})
                 out["known"][fid] = out["known"].get(fid, 0) + n
